@@ -65,6 +65,7 @@ type Conn struct {
 	OnWrite    func(p []byte) // called for every Write call, before any fault
 	OnRead     func(n int)
 	Quiet      func() bool // when it returns true no planned or random fault is injected
+	Faulted    bool        // an injected terminal fault (reset, eof, epipe, closed, short-write) fired on this endpoint
 }
 
 func sysErr(op string, errno syscall.Errno) error {
@@ -104,6 +105,7 @@ func (c *Conn) rate(kind string) bool {
 // kill makes the connection unusable from this side with err, and lets the peer see how.
 func (c *Conn) kill(err error, peerReset bool) {
 	c.dead = err
+	c.Faulted = true
 	c.wr.wclosed = true
 	c.rd.rclosed = true
 	if peerReset {
@@ -147,12 +149,14 @@ func (c *Conn) Read(p []byte) (int, error) {
 	case "eof":
 		// the peer vanished here: nothing more will ever arrive
 		c.S.Fault("eof")
+		c.Faulted = true
 		c.rd.buf = nil
 		c.rd.wclosed = true
 		c.wr.rclosed = true
 		c.peer.dead = sysErr("write", syscall.EPIPE)
 	case "closed":
 		c.S.Fault("closed")
+		c.Faulted = true
 		_ = c.Close()
 		return 0, closedErr("read")
 	case "stall":
@@ -249,6 +253,7 @@ func (c *Conn) Write(p []byte) (int, error) {
 		return 0, c.dead
 	case "closed":
 		c.S.Fault("closed")
+		c.Faulted = true
 		_ = c.Close()
 		return 0, closedErr("write")
 	case "short-write":
@@ -343,7 +348,11 @@ type Listener struct {
 	ServerEP   func(name string) EP
 	Accepted   int
 	Dials      int
+	conns      []*Conn // server-side endpoints, in dial order
 }
+
+// ServerConns returns the server-side endpoints of every connection dialled so far.
+func (l *Listener) ServerConns() []*Conn { return l.conns }
 
 func NewListener(s *simrt.Sim) *Listener { return &Listener{S: s} }
 
@@ -392,6 +401,7 @@ func (l *Listener) Dial(name string, clientEP EP) (*Conn, error) {
 	}
 	a, b := Pipe(l.S, name, clientEP, sep)
 	l.q = append(l.q, b)
+	l.conns = append(l.conns, b)
 	return a, nil
 }
 
